@@ -54,8 +54,11 @@ LEVEL_TEXT = ('Machine-checked (Coq) for EVERY description satisfying a decidabl
               'circuit model) judges what Stim sampled from the real export.')
 LEVEL_NOTE = ('Trusted: Coq kernel; the ten Clifford facts of Sem.v (cross-checked against Stim, not derived); Stim itself as executor; the '
               'hand-written closed form and protocol (tied by correspondence only, listing order taken from the implementation). The theorem is about '
-              'the values actually prepared; that the requested ancilla values are the prepared ones is finding F5 (violated on the current tree, '
-              'caught by spec_ok). No axioms (Print Assumptions: closed).')
+              'the values actually prepared; that the requested ancilla values are the prepared ones was finding F5 (found by spec_ok, fixed in 0b48e8e). '
+              'The supporting check LIBBUILD (run by this check) closes the gap between constructor and closed form inside Coq for chains d = 2, 3 and all 82 layout '
+              'sub-chains, every cycle count < 2^64 + 3, and for d = 2..4 with cycles 0..6 also unrolled: exporting (C08 exporter model) the Core circuit built by the '
+              'constructor program rep_code_prog (tied node for node to the real constructor) yields rep_stim up to the record targets of the annotations, and its gate part '
+              'executes to the protocol record (LibStim_*). No axioms (Print Assumptions: closed).')
 TECHNIQUE = ('Coq proof (induction on cycles over an executable product-state semantics, one-round parity lemma for arbitrary well-formed '
              'descriptions) + Stim-executed correspondence evaluated by vm_compute')
 
